@@ -25,6 +25,7 @@ func propC09(c *Ctx) propInfo {
 	c.floor("E12.generator-determinism", 5)
 	c.floor("E12.generator-id-format", 3)
 	c.floor("E6.generator-templates", 20)
+	c.generatorOutputFiles("tlb/parser", "tl/parser", "abi/generator", "tl", "tlb")
 	c.generatorIsolation("tl/parser", "tlb/parser", "abi/parser", "utils")
 	c.generatedReceivers("E12.generator-receivers")
 	return propInfo{
@@ -418,5 +419,29 @@ func (c *Ctx) generatorIsolation(rels ...string) {
 		})
 	}
 	c.floor(R, 1)
+	_ = n
+}
+
+// generatorOutputFiles: a generator that writes its result over an existing file must replace it:
+// os.Create, or os.OpenFile with O_TRUNC (or O_EXCL / O_APPEND stated on purpose). Opening with
+// O_WRONLY|O_CREATE alone leaves the tail of a longer previous output in place - the second run
+// over a shrunk schema yields a file that does not compile and differs from a fresh run.
+func (c *Ctx) generatorOutputFiles(rels ...string) {
+	const R = "E12.generator-isolation"
+	n := 0
+	for _, f := range c.moduleFuncs(rels...) {
+		for _, cl := range callsTo(f, "os.OpenFile") {
+			flags, ok := constInt(cl.Call.Args[1])
+			if !ok {
+				continue
+			}
+			const oWRONLY, oRDWR, oAPPEND, oCREATE, oEXCL, oTRUNC = 0x1, 0x2, 0x400, 0x40, 0x80, 0x200
+			if flags&(oWRONLY|oRDWR) == 0 {
+				continue
+			}
+			n++
+			c.check(flags&(oTRUNC|oAPPEND|oEXCL) != 0, R, fnName(f)+": output file is replaced, not overwritten in place", cl.Pos(), "O_TRUNC (or O_EXCL/O_APPEND) present", fnName(f)+" opens its output with os.OpenFile for writing without O_TRUNC: writing a shorter result over a longer previous one leaves the old tail in the file (generated code that does not compile; two runs from the same schema differ)")
+		}
+	}
 	_ = n
 }
